@@ -41,11 +41,14 @@ import (
 	"github.com/ElrondNetwork/elrond-go/process/economics"
 	"github.com/ElrondNetwork/elrond-go/process/mock"
 	"github.com/ElrondNetwork/elrond-go/process/smartContract"
+	"github.com/ElrondNetwork/elrond-go/process/smartContract/hooks"
 	txproc "github.com/ElrondNetwork/elrond-go/process/transaction"
 	"github.com/ElrondNetwork/elrond-go/storage/memorydb"
+	"github.com/ElrondNetwork/elrond-go/storage/txcache"
 	"github.com/ElrondNetwork/elrond-go/testscommon"
 	"github.com/ElrondNetwork/elrond-go/vm/systemSmartContracts/defaults"
 	vmcommon "github.com/ElrondNetwork/elrond-vm-common"
+	"github.com/ElrondNetwork/elrond-vm-common/builtInFunctions"
 	"verif/harness/internal/vtrace"
 )
 
@@ -86,7 +89,15 @@ type env struct {
 	accts []string
 }
 
-func addr(name string) []byte { return []byte(strings.Repeat(name, 32)[:32]) }
+// account names: "p" = payable smart contract, "n" = smart-contract address that is not payable, anything else = plain account
+func isSC(name string) bool { return name == "p" || name == "n" }
+
+func addr(name string) []byte {
+	if isSC(name) { // 8 zero bytes + VM type + tail: core.IsSmartContractAddress
+		return append(append(make([]byte, 8), 5, 0), []byte(strings.Repeat(name, 22))...)
+	}
+	return []byte(strings.Repeat(name, 32)[:32])
+}
 
 func enable(on bool) uint32 {
 	if on {
@@ -167,14 +178,42 @@ func newEconomics(c ecoCfg, notifier process.EpochNotifier) (process.FeeHandler,
 
 func newProcessor(c ecoCfg, adb state.AccountsAdapter, ed process.FeeHandler, feeAcc process.TransactionFeeHandler,
 	notifier process.EpochNotifier, marsh marshal.Marshalizer, hasher hashing.Hasher) (txProcessor, error) {
+	coord := mock.NewOneShardCoordinatorMock()
+	pools := testscommon.NewPoolsHolderMock()
+	// real blockchain hook: IsPayable reads the code metadata of the receiver from the accounts DB
+	hook, err := hooks.NewBlockChainHookImpl(hooks.ArgBlockChainHook{
+		Accounts: adb, PubkeyConv: mock.NewPubkeyConverterMock(32), StorageService: &mock.ChainStorerMock{},
+		BlockChain: &mock.BlockChainMock{}, ShardCoordinator: coord, Marshalizer: marsh,
+		Uint64Converter: &mock.Uint64ByteSliceConverterMock{}, BuiltInFunctions: builtInFunctions.NewBuiltInFunctionContainer(),
+		DataPool: pools, CompiledSCPool: pools.SmartContracts(), NilCompiledSCStore: true,
+	})
+	if err != nil {
+		return nil, err
+	}
+	// real smart-contract processor (IsPayable, ProcessIfError); the VM container is a mock: no contract is ever executed
+	scProc, err := smartContract.NewSmartContractProcessor(smartContract.ArgsNewSmartContractProcessor{
+		VmContainer: &mock.VMContainerMock{}, ArgsParser: smartContract.NewArgumentParser(), Hasher: hasher, Marshalizer: marsh,
+		AccountsDB: adb, BlockChainHook: hook, PubkeyConv: mock.NewPubkeyConverterMock(32), ShardCoordinator: coord,
+		ScrForwarder: &mock.IntermediateTransactionHandlerMock{}, BadTxForwarder: &mock.IntermediateTransactionHandlerMock{},
+		TxFeeHandler: feeAcc, TxLogsProcessor: &mock.TxLogsProcessorStub{}, EconomicsFee: ed,
+		TxTypeHandler: &testscommon.TxTypeHandlerMock{}, GasHandler: &mock.GasHandlerMock{SetGasRefundedCalled: func(uint64, []byte) {}},
+		GasSchedule:                    mock.NewGasScheduleNotifierMock(defaults.FillGasMapInternal(map[string]map[string]uint64{}, 1)),
+		EpochNotifier:                  notifier,
+		PenalizedTooMuchGasEnableEpoch: enable(c.Fp),
+		ArwenChangeLocker:              &sync.RWMutex{},
+		VMOutputCacher:                 txcache.NewDisabledCache(),
+	})
+	if err != nil {
+		return nil, err
+	}
 	return txproc.NewTxProcessor(txproc.ArgsNewTxProcessor{
 		Accounts:                       adb,
 		Hasher:                         hasher,
 		PubkeyConv:                     mock.NewPubkeyConverterMock(32),
 		Marshalizer:                    marsh,
 		SignMarshalizer:                &marshal.TxJsonMarshalizer{},
-		ShardCoordinator:               mock.NewOneShardCoordinatorMock(),
-		ScProcessor:                    &testscommon.SCProcessorMock{},
+		ShardCoordinator:               coord,
+		ScProcessor:                    scProc,
 		TxFeeHandler:                   feeAcc,
 		TxTypeHandler:                  &testscommon.TxTypeHandlerMock{},
 		EconomicsFee:                   ed,
@@ -190,10 +229,11 @@ func newProcessor(c ecoCfg, adb state.AccountsAdapter, ed process.FeeHandler, fe
 	})
 }
 
-// seed creates the initial accounts (only those with a balance or a nonce exist)
-func (e *env) seed(bal, nonce map[string]int) error {
+// seed creates the initial accounts: plain accounts with a balance or a nonce, and the deployed contracts (an account
+// with code, code hash and code metadata: payable for "p", not payable for "n")
+func (e *env) seed(bal, nonce map[string]int, exists map[string]bool) error {
 	for _, a := range e.accts {
-		if bal[a] == 0 && nonce[a] == 0 {
+		if bal[a] == 0 && nonce[a] == 0 && !exists[a] {
 			continue
 		}
 		ah, err := e.adb.LoadAccount(addr(a))
@@ -201,6 +241,11 @@ func (e *env) seed(bal, nonce map[string]int) error {
 			return err
 		}
 		ua := ah.(state.UserAccountHandler)
+		if isSC(a) {
+			ua.SetCode([]byte("code of contract " + a))
+			ua.SetCodeMetadata((&vmcommon.CodeMetadata{Payable: a == "p", Readable: true}).ToBytes())
+			ua.SetOwnerAddress(addr("a"))
+		}
 		if err = ua.AddToBalance(big.NewInt(int64(bal[a]))); err != nil {
 			return err
 		}
@@ -290,8 +335,10 @@ func (e *env) process(t txIn) string {
 		return "ok"
 	case err == nil:
 		return fmt.Sprintf("other:code=%d,nil", code)
+	case errors.Is(err, process.ErrFailedTransaction) && code == vmcommon.UserError:
+		return "notPayable" // executeAfterFailedMoveBalanceTransaction (receiver check failed after the sender was charged)
 	case errors.Is(err, process.ErrFailedTransaction):
-		return "insufficientFunds" // the only failed-transaction path of a move balance
+		return "insufficientFunds" // executingFailedTransaction from checkTxValues
 	case errors.Is(err, process.ErrHigherNonceInTransaction):
 		return "higherNonce"
 	case errors.Is(err, process.ErrLowerNonceInTransaction):
@@ -310,6 +357,14 @@ func intMap(v interface{}) map[string]int {
 	r := map[string]int{}
 	for k, x := range v.(map[string]interface{}) {
 		r[k] = vtrace.Int(x)
+	}
+	return r
+}
+
+func boolMap(v interface{}) map[string]bool {
+	r := map[string]bool{}
+	for k, x := range v.(map[string]interface{}) {
+		r[k] = x == true
 	}
 	return r
 }
@@ -361,7 +416,7 @@ func coarse(res string) string {
 	switch res {
 	case "ok", "commit":
 		return res
-	case "insufficientFunds":
+	case "insufficientFunds", "notPayable":
 		return "failed-and-charged"
 	}
 	return "rejected"
@@ -386,7 +441,7 @@ func replayOne(bi int, b []vtrace.Step) (res bResult) {
 	accts := sortedKeys(b[0].St["bal"])
 	e, err := newEnv(c, accts)
 	if err == nil {
-		err = e.seed(intMap(b[0].St["bal"]), intMap(b[0].St["nonce"]))
+		err = e.seed(intMap(b[0].St["bal"]), intMap(b[0].St["nonce"]), boolMap(b[0].St["exists"]))
 	}
 	if err != nil {
 		res.broken = fmt.Sprintf("behaviour %d: cannot build the processor: %v", bi, err)
@@ -429,6 +484,19 @@ func replayOne(bi int, b []vtrace.Step) (res bResult) {
 		if st.A == "Process" && si == len(b)-2 {
 			res.classKey = fmt.Sprint(c.Fp, c.Fm, exp, t.Snd == t.Rcv, before.exists[t.Snd], before.exists[t.Rcv])
 			res.distKey = fmt.Sprint(c, before.json(), t)
+		}
+		if what == "" && sum(after) != sum(before) {
+			// the real code does what the specification (as coded) says, and that does not conserve value:
+			// literally the property, evaluated on the observed balances and fees
+			res.sig = fmt.Sprintf("C23/%s/value-not-conserved", exp)
+			if exp == "notPayable" && sum(after) > sum(before) && after.bal[t.Snd] < before.bal[t.Snd] {
+				res.sig = "C23/notPayable/fees-accounted-exceed-fee-charged"
+			}
+			res.what = fmt.Sprintf(
+				"txProcessor.ProcessTransaction does not conserve value: tx %+v (flags penalized=%v modifier=%v) result %q: state %v -> %v, balances+fees %d -> %d (sender charged %d, fee collector credited %d)",
+				t, c.Fp, c.Fm, got, before.json(), after.json(), sum(before), sum(after), before.bal[t.Snd]-after.bal[t.Snd], after.fees-before.fees)
+			res.detail = M{"behaviour": b, "step": si + 1}
+			return
 		}
 		if what != "" {
 			res.sig = fmt.Sprintf("C23/%s/%s-differs", exp, what)
@@ -520,7 +588,8 @@ func record(seed int64, traces, n int, out string) {
 		return
 	}
 	rng := rand.New(rand.NewSource(seed))
-	accts := []string{"a", "b", "c", "d", "e"}
+	users := []string{"a", "b", "c", "d", "e"}
+	accts := []string{"a", "b", "c", "d", "e", "n", "p"}
 	classes := vtrace.NewDistinct()
 	for t := 0; t < traces; t++ {
 		k := rng.Intn(3)
@@ -542,7 +611,8 @@ func record(seed int64, traces, n int, out string) {
 			return
 		}
 		bal, nonce := map[string]int{}, map[string]int{}
-		for _, a := range accts {
+		deployed := map[string]bool{"p": rng.Intn(4) != 0, "n": rng.Intn(2) == 0} // a missing contract is not payable either
+		for _, a := range users {
 			switch rng.Intn(4) {
 			case 0: // does not exist yet
 			case 1:
@@ -552,7 +622,7 @@ func record(seed int64, traces, n int, out string) {
 				nonce[a] = rng.Intn(3)
 			}
 		}
-		if err = e.seed(bal, nonce); err != nil {
+		if err = e.seed(bal, nonce, deployed); err != nil {
 			vtrace.Broken(err.Error())
 			return
 		}
@@ -567,9 +637,12 @@ func record(seed int64, traces, n int, out string) {
 				continue
 			}
 			p := e.project()
-			tx := txIn{Snd: accts[rng.Intn(len(accts))], Rcv: accts[rng.Intn(len(accts))]}
-			if rng.Intn(6) == 0 {
+			tx := txIn{Snd: users[rng.Intn(len(users))], Rcv: users[rng.Intn(len(users))]}
+			switch rng.Intn(6) {
+			case 0:
 				tx.Rcv = tx.Snd
+			case 1:
+				tx.Rcv = []string{"p", "n", "n"}[rng.Intn(3)]
 			}
 			tx.Nonce = p.nonce[tx.Snd]
 			switch rng.Intn(10) {
@@ -585,6 +658,9 @@ func record(seed int64, traces, n int, out string) {
 				tx.Price = c.MinPrice - 1
 			}
 			tx.Dl = rng.Intn(6)
+			if isSC(tx.Rcv) {
+				tx.Dl = 0 // a transfer to a contract address that carries data is a contract call, not a move balance
+			}
 			moveGas := c.MinLimit + tx.Dl*c.PerByte
 			switch rng.Intn(6) {
 			case 0:
